@@ -227,26 +227,35 @@ def gen_clockfam(seed, i):
     L = [f"design {did}", f"omode {OMODES[i % 3]}", f"tool {TOOLS[(i // 3) % 4]}"]
     ncl = r.choice([2, 3, 3, 4, 5, 6])
     names = []
+    kind = {"base": "sync"}       # effective reset kind / reset name per clock (children inherit what they do not set)
+    rname = {"base": "reset"}
     for j in range(ncl):
         opts = []
-        if r.random() < 0.75:
-            opts.append("rstname=" + r.choice(["rst_a", "rst_b", "rst_c"]))
+        rn = r.choice(["rst_a", "rst_b", "rst_c"]) if r.random() < 0.75 else None
         if r.random() < 0.3:
             opts.append("active=low")
         k = r.random()
-        if k < 0.2:
-            opts.append("rst=async")
-        elif k < 0.3:
-            opts.append("rst=none")
+        rk = "async" if k < 0.2 else "none" if k < 0.3 else None
         if r.random() < 0.25:
             opts.append("trig=falling")
-        if r.random() < 0.15:
+        root = r.random() < 0.15
+        parent = "base" if root or not names else r.choice(["base"] * 3 + names)
+        if not root and kind[parent] == "none" and rk in ("async",) and (rn is None or rn == rname[parent]):
+            # KNOWN EXPORTER CRASH, not a C10 matter (reported): a clock WITH a reset derived from a clock with
+            # ResetType::NONE and the same reset name inherits a null reset pin source -> SIGSEGV in allocateResetName
+            rn = f"rst_k{j}"
+        if rn:
+            opts.append("rstname=" + rn)
+        if rk:
+            opts.append("rst=" + rk)
+        if root:
             L.append(f"rclock c{j} {r.choice([50000000, 75000000, 100000000])} " + " ".join(opts))
+            kind[f"c{j}"] = rk or "sync"; rname[f"c{j}"] = rn or "reset"
         else:
             if r.random() < 0.15:
                 opts.append(f"name=pin_c{j}")
-            parent = r.choice(["base"] * 3 + names) if names else "base"
             L.append(f"dclock c{j} {parent} " + " ".join(opts))
+            kind[f"c{j}"] = rk or kind[parent]; rname[f"c{j}"] = rn or rname[parent]
         names.append(f"c{j}")
     wrap = r.random() < 0.6
     if wrap:
@@ -376,9 +385,14 @@ def run_process(harness, cfg, progfile, hands, out, nbuilds, shuffles, cycles, s
     e = {"VERIF_SEED": str(V.seed())}
     e.update(env)
     rc, log = V.run(cmd, timeout=3000, env=e)
-    if rc != 0:
+    crashed = None
+    if rc < 0 or rc >= 128:
+        # the LIBRARY crashed the process (signal): name the design, the caller decides
+        b = [l.split()[1] for l in log.splitlines() if l.startswith("BEGIN ") and len(l.split()) > 1]
+        crashed = b[-1] if b else "?"
+    elif rc != 0:
         V.infra_error(f"C10_det failed rc={rc} in process {tag} ({desc}): {log[-1500:]}")
-    return dict(tag=tag, cmd=" ".join(f"{k}={v}" for k, v in e.items()) + " " + " ".join(cmd), desc=desc, log=log[-300:])
+    return dict(tag=tag, cmd=" ".join(f"{k}={v}" for k, v in e.items()) + " " + " ".join(cmd), desc=desc, log=log[-300:], crashed=crashed, rc=rc)
 
 
 def main():
@@ -434,10 +448,41 @@ def main():
     # ---- (B1)+(B2)+(B3): run the processes (process 0 also does the shuffles) ----------------------
     cfgs = process_configs(rep.tier, rep.seed, setarch)
     t0 = time.time()
-    with concurrent.futures.ThreadPoolExecutor(max_workers=min(len(cfgs), V.NCPU)) as ex:
-        futs = [ex.submit(run_process, harness, c, progfile, handarg, out, nbuilds, nshuffle if c[0] == "p0" else 0, cycles) for c in cfgs]
-        procs = [f.result() for f in futs]
+    crashing = []          # designs on which the library kills EVERY process (not a C10 matter; excluded and reported)
+    crash_viol = None
+    for attempt in range(8):
+        with concurrent.futures.ThreadPoolExecutor(max_workers=min(len(cfgs), V.NCPU)) as ex:
+            futs = [ex.submit(run_process, harness, c, progfile, handarg, out, nbuilds, nshuffle if c[0] == "p0" else 0, cycles) for c in cfgs]
+            procs = [f.result() for f in futs]
+        cr = {pr["crashed"] for pr in procs}
+        if cr == {None}:
+            break
+        if len(cr) == 1 and "?" not in cr:
+            d = cr.pop()
+            crashing.append(d)
+            progs = [x for x in progs if x[0] != d]
+            hands = [h for h in hands if h != d]
+            designs = [x for x in designs if x != d]
+            shutil.rmtree(out); out.mkdir(parents=True)
+            G.write_programs(str(out / "designs.txt"), [l for _, l, _ in progs])
+            progfile = str(out / "designs.txt") if progs else "-"
+            handarg = ",".join(hands) if hands else "-"
+            continue
+        # crashes in some processes only, or at different designs: that IS heap-layout dependence
+        crash_viol = {pr["tag"]: dict(crashed_at=pr["crashed"], rc=pr["rc"], command=pr["cmd"]) for pr in procs}
+        break
+    else:
+        V.infra_error(f"the library crashes the harness on too many designs: {crashing}")
     t_run = time.time() - t0
+    if not designs:
+        rep.cov["designs_excluded_library_crashes_every_process"] = crashing
+        rep.cov["rule"] = "no design left to compare"
+        rep.cov["samples"] = [dict(crashing=crashing)]
+        rep.finish()
+    if crash_viol:
+        rep.violation(dict(property=CID, kind="the library crashes (signal) in some processes / at different designs only: the crash depends on the heap layout",
+                           processes=crash_viol, programs={d: prog_of.get(d) for d in {v["crashed_at"] for v in crash_viol.values() if v["crashed_at"]}}), tag="crash")
+        rep.finish()
     recipe = {}
     for c, pr in zip(cfgs, procs):
         for b in range(nbuilds):
@@ -654,6 +699,7 @@ def main():
     rep.cov["designs_generated_clock_family"] = len([1 for d in designs if d.startswith("k")])
     rep.cov["designs_hand_written"] = len(hands)
     rep.cov["designs_corpus"] = len([1 for d in designs if d.startswith("c_")])
+    rep.cov["designs_excluded_library_crashes_every_process"] = crashing
     rep.cov["designs_skipped_not_constructible"] = [f"{d}: {why}" for d, why in skipped][:10]
     rep.cov["processes"] = len(cfgs)
     rep.cov["process_configs"] = [c[5] for c in cfgs]
